@@ -933,8 +933,10 @@ def _name_tree_failure(t, bindings, f, order_seed, via_shape):
             if label:
                 sig = f"{w.kind}|same-in-sympy:{label}"
                 detail = "plain SymPy does the same with the faithfully translated expression"
-    if again and "same-in-sympy" not in sig:
-        # does the failure depend on what the symbols are called?
+    if again and "same-in-sympy" not in sig and sig != "print-parse|unparseable:Piecewise":
+        # does the failure depend on what the symbols are called?  (Not asked for a printed Piecewise: no
+        # identifier makes that text parseable; whether SymPy arrives at a Piecewise at all depends on its
+        # canonical argument order, hence on the names - SymPy's doing, the mechanism stays the same.)
         classes = _identifier_sensitive_tree(small, bindings, f.key, which, order_seed, via_shape)
         if classes:
             parts = sig.split("|")
